@@ -160,6 +160,12 @@ def createOne (cr : ShardRepair) (d : ShardDef) (draws : List Nat) : SRes (List 
   | [] => .panic "index out of range"
   | t :: _ => .ok [createReq t cr.shard d.appName true false] draws
 
+/-- the redraw loop for the replacement id (repaired, F-C02): the first draw that is non-zero and not the id of a
+    current member; `none` = ran out of scripted draws -/
+def freshId (c : Shard) : List Nat → Option (Nat × List Nat)
+  | [] => none
+  | d :: ds => if d != 0 && !(c.replicas.any (·.replicaId == d)) then some (d, ds) else freshId c ds
+
 def addOne (cx : Ctx) (cr : ShardRepair) (draws : List Nat) : SRes (List Request) :=
   match cr.failed with
   | [] => .panic "index out of range"
@@ -167,11 +173,14 @@ def addOne (cx : Ctx) (cr : ShardRepair) (draws : List Nat) : SRes (List Request
     match replacement cx f draws with
     | none => .panic "exhausted"
     | some (none, _) => .error "not enough node host"
-    | some (some h, d1 :: d2 :: draws2) =>
-      match nth? cr.ok (d1 % cr.ok.length) with
-      | none => .panic "index out of range"
-      | some via => .ok [addReq cr h via d2] draws2
-    | some (some _, _) => .panic "exhausted"
+    | some (some h, d1 :: draws1) =>
+      match freshId cr.shard draws1 with
+      | none => .panic "exhausted"
+      | some (d2, draws2) =>
+        match nth? cr.ok (d1 % cr.ok.length) with
+        | none => .panic "index out of range"
+        | some via => .ok [addReq cr h via d2] draws2
+    | some (some _, []) => .panic "exhausted"
 
 /-- the if / else-if chain of `repair` for one shard -/
 def repairOne (cx : Ctx) (cr : ShardRepair) (draws : List Nat) : SRes (List Request) :=
